@@ -12,6 +12,7 @@ CONSTANTS
   MaxBlockWeight = 250
   MineWeight = 120
   FeeFirst = FALSE
+  StemRecheck = "always"
   FeeOnRemainder = TRUE
   EvictMode = "nodeps"
   ReconcileMature = TRUE
